@@ -400,8 +400,84 @@ func c02NullUnknownCase(cs *h.Case) (*c02Case, bool, int) {
 	return cc, hasUnknown, len(parts)
 }
 
+// c02WideStructs: structs wide enough for every name index (trie and hash map) and for the native field cache and the
+// requires-bitmap cache; documents name a random subset of the members in random order.
+func c02WideStructs(c *h.Ctx) {
+	c.Run("wide-structs", c.N(300, 6000), func(cs *h.Case) {
+		n := []int{24, 40, 64, 65, 100, 120, 130, 200, 300, 520}[cs.R.Intn(10)]
+		st := &gen.StructT{Name: "Wide"}
+		style := cs.R.Intn(3)
+		used := map[int16]bool{}
+		for i := 0; i < n; i++ {
+			id := int16(1 + i)
+			if cs.R.Chance(10) {
+				id = int16(1000 + cs.R.Intn(30000))
+			}
+			if used[id] {
+				continue
+			}
+			used[id] = true
+			name := fmt.Sprintf("f%03d", i)
+			switch style {
+			case 1:
+				name = fmt.Sprintf("member_%d_x", i)
+			case 2:
+				name = fmt.Sprintf("%c%c%d", 'a'+byte(i%26), 'A'+byte((i/26)%26), i)
+			}
+			t := &gen.Type{T: []byte{tref.I32, tref.STRING, tref.I64, tref.BOOL}[cs.R.Intn(4)]}
+			st.Fields = append(st.Fields, &gen.FieldT{ID: id, Name: name, T: t, Req: []int{gen.ReqDefault, gen.ReqOptional, gen.ReqRequired}[cs.R.Intn(3)]})
+		}
+		sc := &gen.Schema{Structs: []*gen.StructT{st}, Root: st}
+		desc, _, err := ParseRoot(sc, thrift.NewDefaultOptions())
+		if err != nil {
+			cs.Viol("j2t:parse-idl", "err", err)
+			return
+		}
+		root := structType(st)
+		// all required members + a random subset of the others, in random order
+		v := tref.Struct()
+		for _, f := range st.Fields {
+			if f.Req == gen.ReqRequired || cs.R.Chance(35) {
+				v.Fs = append(v.Fs, tref.Field{ID: f.ID, V: gen.GenVal(cs.R, f.T, gen.ValCfg{MaxStr: 12, PlainStr: true}, 1)})
+			}
+		}
+		for i := len(v.Fs) - 1; i > 0; i-- {
+			j := cs.R.Intn(i + 1)
+			v.Fs[i], v.Fs[j] = v.Fs[j], v.Fs[i]
+		}
+		doc := RenderJSON(cs.R, v, root, JSpell{}, JOpts{})
+		want := tref.Encode(v)
+		cs.Info("fields", len(st.Fields))
+		cs.Info("members", len(v.Fs))
+		cs.Info("doc", trunc(doc))
+		o := conv.Options{DisallowUnknownField: cs.R.Bool()}
+		cv := newJ2T(cs, o)
+		out, err := cv.Do(context.Background(), desc, []byte(doc))
+		if err != nil {
+			cs.Viol("j2t:wide:error-on-conforming", "err", err, "fields", len(st.Fields))
+			return
+		}
+		if !bytes.Equal(out, want) {
+			dec, derr := tref.Decode(out, tref.STRUCT)
+			missing := 0
+			if derr == nil {
+				for _, f := range v.Fs {
+					if dec.FieldByID(f.ID) == nil {
+						missing++
+					}
+				}
+			}
+			cs.Viol("j2t:wide:bytes", "fields", len(st.Fields), "members", len(v.Fs), "members-missing-in-output", missing, "decode-error", derr)
+			return
+		}
+		cs.Cover("wide_struct_ok")
+		cs.Distinct(fmt.Sprintf("w-%d-%d-%d", n, style, len(v.Fs)/8))
+	})
+}
+
 func runC02(c *h.Ctx) {
 	defer c02RootValues(c)
+	defer c02WideStructs(c)
 	// ---- conforming documents --------------------------------------------------------
 	c.Run("docs", c.N(6000, 250000), func(cs *h.Case) {
 		cc, ok := c02Make(cs)
